@@ -126,6 +126,13 @@ func genAOF(r *Rng, tier string, idx int, rewrite bool) *Plan {
 					p.Ops[j].N = int64(r.Range(1, 40))
 				}
 			}
+		} else if r.Chance(0.4) {
+			// two connections ask for a rewrite at the same moment
+			for j := range p.Ops {
+				if p.Ops[j].Kind == "rewrite" && r.Chance(0.7) {
+					p.Ops[j].S = "twin"
+				}
+			}
 		}
 	}
 	p.Dice = drawDice(r, 96)
